@@ -560,6 +560,166 @@ def stream_tree(chk, i, rng):
     chk.count(("tree", splits, d, m, node, hash(A.tobytes())) if splits >= 1 and len(leaves) >= 2 else None)
 
 
+# ---------------------------------------------------------------------------------------------- refit
+ALL_INDUCTIVE = GRADIENT + ["KernelRIM", "Douglas", "Kauri"]
+
+
+def refit_factory(name, rng, nmin, same_d):
+    """(label, factory): factory() builds a NEW estimator (and a new GEMINI object) with identical hyper-parameters"""
+    seed = int(rng.integers(0, 10 ** 6))
+    K = int(rng.integers(2, max(min(nmin, 4), 2) + 1))
+    base = dict(n_clusters=K, max_iter=int(rng.integers(2, 4)), batch_size=None if rng.random() < 0.4 else int(rng.integers(1, nmin + 1)),
+                solver=str(rng.choice(["sgd", "adam"])), learning_rate=float(rng.choice([1e-2, 0.1])), random_state=seed)
+    if name == "Kauri":
+        kw = dict(max_clusters=int(rng.integers(2, 5)), max_depth=None if rng.random() < 0.5 else int(rng.integers(1, 4)),
+                  kernel=str(rng.choice(["linear", "rbf"])), random_state=seed)
+        return json.dumps(kw, sort_keys=True), K, (lambda: impl.make("Kauri", **kw))
+    if name == "KernelRIM":
+        kern = "linear" if rng.random() < 0.6 else str(rng.choice(["rbf", "laplacian", "polynomial"]))
+        kw = dict(base, base_kernel=kern, reg=float(rng.choice([0.0, 0.1])))
+        return kern, K, (lambda: impl.make("KernelRIM", **kw))
+    if name == "Douglas":
+        gs = impl.all_geminis()
+        gi = int(rng.integers(0, len(gs)))
+        kw = dict(base, n_cuts=int(rng.integers(1, 3)), temperature=float(rng.choice([0.1, 1.0])))
+        return gs[gi][0], K, (lambda: impl.make("Douglas", gemini=gs[gi][1](), **kw))
+    kw = dict(base, n_hidden_dim=int(rng.integers(1, 7)), alpha=float(rng.choice([1e-3, 0.05])))
+    if name in impl.GENERIC_GEMINI:
+        gs = impl.all_geminis()
+        gi = int(rng.integers(0, len(gs)))
+        return gs[gi][0], K, (lambda: impl.make(name, gemini=gs[gi][1](), **kw))
+    glabel, gkw = gemini_for(name, 0, rng)
+    return glabel, K, (lambda: impl.make(name, **kw, **gkw))
+
+
+def model_on_current_fit(chk, key, name, est, B, r, K, replay):
+    """L2: the extracted model evaluated on the attributes the estimator holds NOW vs predict_proba / predict / labels_"""
+    Br = np.ascontiguousarray(B[r])
+    n, d = B.shape
+    if name == "Kauri":
+        st, vec, rows = model_tree(chk, tree_arrays(est.tree_), B, r)
+        Li = np.asarray(est.predict(Br))
+        if st != 0 or vec != [int(v) for v in Li] or [lab for _, lab in rows] != [int(v) for v in Li]:
+            chk.fail(key + ":model", f"model of Tree.predict on the current tree_: status {st}, labels {vec} vs implementation {Li.tolist()}", replay)
+        return
+    Pi, Li = np.asarray(est.predict_proba(Br)), np.asarray(est.predict(Br))
+    if name == "KernelRIM":
+        if np.asarray(est.input_data_).shape != (n, d) or np.asarray(est.training_kernel_).shape != (n, n) or est.W_.shape != (n, K):
+            chk.fail(key + ":stale-attributes", f"after fit on a {B.shape} array: input_data_ {np.asarray(est.input_data_).shape}, "
+                     f"training_kernel_ {np.asarray(est.training_kernel_).shape}, W_ {est.W_.shape}", replay, layer="L3")
+            return
+        kscale = 1.0 + float(np.abs(est.training_kernel_).max()) * (1.0 + float(np.abs(est.W_).max()))
+        t = chk.ask(f"c18.krim {d} {n} {K} {enc_mat(est.input_data_)} {enc_mat(est.training_kernel_)} {enc_mat(est.W_)} {enc_vec(np.ravel(est.b_))} "
+                    f"{enc_mat(B)} {enc_mat(np.asarray(est._compute_kernel(B)))} {enc_list(r)}")
+        if t.int():
+            chk.fail(key + ":model-oracle", "the model asked the recorded kernel oracle for a row it never saw", replay)
+        Pm, Lm = read_pl(t, len(r), K)
+        Pf, Lf = read_pl(t, n, K)
+        compare_model(chk, key, Pm, Lm, Pi, Li, replay, scale=kscale)
+        mgf = margins(Pf)
+        bad = [int(b) for b in np.nonzero(Lf != np.asarray(est.labels_))[0] if mgf[b] > MARGIN] if len(Lf) == len(est.labels_) else [-1]
+        if bad:
+            chk.fail(key + ":model-fit-labels", f"labels_ differs from the model's fit labels on the current attributes at {bad[:5]}", replay)
+        return
+    if name == "Douglas":
+        cuts = enc_list(est.cut_points_list_, lambda fc: f"{int(fc[0])} {enc_vec(np.sort(np.asarray(fc[1], dtype=float)))}")
+        t = chk.ask(f"c18.douglas {est.n_cuts} {hx(est.temperature)} {cuts} {est.leaf_scores_.shape[0]} {K} {enc_mat(est.leaf_scores_)} {enc_mat(B)} {enc_list(r)}")
+        Pm, Lm = read_pl(t, len(r), K)
+        compare_model(chk, key, Pm, Lm, Pi, Li, replay)
+        return
+    _, ms = enc_model(name, est)
+    t = chk.ask(f"c18.model {ms} {enc_mat(B)} {enc_list(r)} {enc_mat(B)}")
+    Pm, Lm = read_pl(t, len(r), K)
+    fl = np.array([t.int() for _ in range(n)], dtype=int)
+    compare_model(chk, key, Pm, Lm, Pi, Li, replay)
+    PB = np.asarray(est.predict_proba(B))
+    mg = margins(PB) if PB.shape == (n, K) else np.full(n, np.inf)
+    bad = [int(b) for b in np.nonzero(fl != np.asarray(est.labels_))[0] if mg[b] > MARGIN] if len(est.labels_) == n else [-1]
+    if bad:
+        chk.fail(key + ":model-fit-labels", f"labels_ differs from the model's argmax of infer on the current weights at {bad[:5]}", replay)
+
+
+def stream_refit(chk, i, rng):
+    """fit(A); predict / predict_proba / score; fit(B) on the SAME object (other n, sometimes other d): predictions must be
+    those of the last fit alone — labels_, the extracted model on the current attributes, row-wise, and a fresh estimator"""
+    name = ALL_INDUCTIVE[i % len(ALL_INDUCTIVE)]
+    A, kindA = gen_data(chk, rng, nmax=22)
+    same_d = rng.random() < 0.6
+    for _ in range(20):
+        B, kindB = gen_data(chk, rng, nmax=22)
+        if len(B) != len(A) and (B.shape[1] == A.shape[1]) == same_d:
+            break
+    if same_d and B.shape[1] != A.shape[1]:
+        B = impl.blobs(rng, len(B), A.shape[1], k=3)
+    if len(B) == len(A):
+        B = np.ascontiguousarray(B[:-1]) if len(B) > 3 else np.vstack([B, B[:1] + 0.5])
+    if name == "Douglas":
+        A, B = np.ascontiguousarray(A[:, :3]), np.ascontiguousarray(B[:, :3])
+    glabel, K, factory = refit_factory(name, rng, min(len(A), len(B)), same_d)
+    proba = name != "Kauri"
+    key = "refit:" + ("linear" if name in LINEAR else "mlp" if name in MLP + SPMLP else name.lower())
+    replay = {"estimator": name, "config": glabel, "K": K, "A": list(A.shape), "B": list(B.shape), "dataA": kindA, "dataB": kindB}
+    est = factory()
+    est.fit(A)
+    used = []
+    est.predict(A)
+    used.append("predict")
+    if proba:
+        est.predict_proba(A[:max(1, len(A) // 2)])
+        used.append("predict_proba")
+    try:
+        est.score(A)
+        used.append("score")
+    except Exception as e:  # noqa  (score is not what this property is about)
+        chk.dist[f"refit-score-raised:{type(e).__name__}"] += 1
+    est.fit(B)
+    fresh = factory().fit(B)
+    n = len(B)
+    # L3: the training predictions of the LAST fit, row-wise behaviour on B, agreement with a fresh object
+    if name == "Kauri":
+        LB, leaves = check_tree(chk, key + ":B", est.tree_, B, rng, replay, est.predict)
+        PB = None
+        if LB is None:
+            chk.count(None)
+            return
+    else:
+        LB, PB, _ = rowwise_suite(chk, key + ":B", "refit", est, B, rng, replay,
+                                  tolscale=1.0 if name != "KernelRIM" else 1.0 + float(np.abs(est.training_kernel_).max()) * (1.0 + float(np.abs(est.W_).max())))
+        if LB is None or PB.shape != (n, K):
+            if LB is not None:
+                chk.fail(key + ":B:shape", f"predict_proba(B) has shape {PB.shape}, expected {(n, K)}", replay, layer="L3")
+            chk.count(None)
+            return
+    train_labels(chk, key, est, B, LB, PB, replay)
+    try:
+        Lf = np.asarray(fresh.predict(B))
+        Pf = np.asarray(fresh.predict_proba(B)) if proba else None
+    except Exception as e:  # noqa
+        chk.fail(key + ":fresh-raises", f"a fresh estimator fitted on B raised on predict: {type(e).__name__}: {e}", replay, layer="L3")
+        chk.count(None)
+        return
+    if proba:
+        dfr = float(np.max(np.abs(Pf - PB))) if Pf.shape == PB.shape else float("inf")
+        stat("refit-vs-fresh", dfr)
+        if not dfr <= TOL_P:
+            chk.fail(key + ":vs-fresh:proba", f"the refitted estimator and a fresh one (same data, same random_state) differ in predict_proba by {dfr:.3e}", replay, layer="L3")
+        mg = margins(PB)
+        bad = [int(b) for b in np.nonzero(Lf != LB)[0] if mg[b] > MARGIN]
+    else:
+        bad = [int(b) for b in np.nonzero(Lf != LB)[0]]
+    if bad or not np.array_equal(np.asarray(fresh.labels_), np.asarray(est.labels_)) and not proba:
+        chk.fail(key + ":vs-fresh:labels", f"the refitted estimator and a fresh one (same data, same random_state) predict differently at rows {bad[:5]}", replay, layer="L3")
+    # L2: the extracted model on the attributes the object holds now
+    for r in (list(range(n)), rng.integers(0, n, size=int(rng.integers(1, n + 3))).tolist()):
+        model_on_current_fit(chk, key, name, est, B, r, K, dict(replay, r=r))
+    distinct = len(set(LB.tolist()))
+    chk.traces += 1
+    chk.dist["refit:" + name] += 1
+    chk.dist["refit-same-d" if A.shape[1] == B.shape[1] else "refit-other-d"] += 1
+    chk.count(("refit", name, glabel, tuple(A.shape), tuple(B.shape), K, tuple(used)) if distinct >= 2 and "predict" in used else None)
+    chk.sample({"stream": "refit", **replay, "used_between_fits": used}, limit=8)
+
+
 def stream_malformed(chk, i, rng):
     """start nodes outside the tree, truncated arrays, too little fuel; unfitted / wrongly shaped predict input"""
     d = 2
@@ -609,7 +769,7 @@ def stream_malformed(chk, i, rng):
 
 
 STREAMS = {"gradient": (stream_gradient, 390, 3900), "krim": (stream_krim, 84, 840), "douglas": (stream_douglas, 60, 600),
-           "kauri": (stream_kauri, 120, 1800), "tree": (stream_tree, 300, 4500), "malformed": (stream_malformed, 24, 240)}
+           "kauri": (stream_kauri, 120, 1800), "tree": (stream_tree, 300, 4500), "refit": (stream_refit, 150, 1800), "malformed": (stream_malformed, 24, 240)}
 
 
 def main():
@@ -634,7 +794,7 @@ def main():
     chk.finish(rule="streams: real fits (2-3 epochs, every GEMINI on the generic estimators, all 12 gradient estimators, KernelRIM with 6 named kernels and a callable, "
                     "Douglas, Kauri) then predict / predict_proba on the training array and on a fresh array (fresh rows, copies of training rows, duplicated rows) "
                     "as a whole vs a random subset, a permutation, the reversed array, a selection with repetitions and every single row; extracted forward pass / "
-                    "Tree.predict model on the recorded parameters vs the implementation on X[r]; hand-grown trees through Tree._add_child with any start node, "
+                    "Tree.predict model on the recorded parameters vs the implementation on X[r]; refit stream: every inductive estimator fitted on A, used (predict / predict_proba / score), fitted again on B (other n, sometimes other d) on the same object, then the same checks on B plus agreement with a fresh estimator; hand-grown trees through Tree._add_child with any start node, "
                     "empty arrays, NaN/inf entries, values on thresholds. non-trivial = at least two distinct labels (gradient models) / two distinct leaves reached "
                     "(trees) so that a constant predictor would not pass; distinct = distinct (estimator, objective, n, d, K, m, ...) signature",
                extra={"rowwise_probability_differences": fams})
